@@ -26,6 +26,10 @@ SflIdx(sym) == CASE sym = "SFL2_0" -> 0 [] sym = "SFL2_1" -> 1 [] sym = "SFL2_2"
                  [] sym = "SFL3_1" -> 1 [] sym = "SFL3_2" -> 2 [] sym = "SFL3_3" -> 3 [] sym = "SFL3_4" -> 4 [] OTHER -> -1
 IsSfl2(sym) == sym \in {"SFL2_0", "SFL2_1", "SFL2_2", "SFL2_3", "SFL2_4"}
 IsSfl3(sym) == sym \in {"SFL3_1", "SFL3_2", "SFL3_3", "SFL3_4"}
+\* end-index arguments far beyond any transaction (the argument is a u64): 2^16 + k, 2^32 + k, 2^64 - 1
+IsSflW(sym) == sym \in {"SFLW_65536", "SFLW_65537", "SFLW_65538", "SFLW_4294967297", "SFLW_MAX"}
+SflWide(sym) == CASE sym = "SFLW_65536" -> "65536" [] sym = "SFLW_65537" -> "65537" [] sym = "SFLW_65538" -> "65538"
+                  [] sym = "SFLW_4294967297" -> "4294967297" [] sym = "SFLW_MAX" -> "18446744073709551615"
 Act(sym) ==
   CASE sym = "CB" -> [op |-> "foreign", program |-> "prog.compute"]
     [] sym = "JUP" -> [op |-> "foreign", program |-> "prog.jup"]
@@ -52,6 +56,7 @@ Act(sym) ==
     [] sym = "CEND3" -> [op |-> "end_liq", acct |-> "A3", receiver |-> "liquidator", cpi |-> TRUE]
     [] IsSfl2(sym) -> [op |-> "start_fl", acct |-> "A2", end_index |-> SflIdx(sym)]
     [] IsSfl3(sym) -> [op |-> "start_fl", acct |-> "A3", end_index |-> SflIdx(sym)]
+    [] IsSflW(sym) -> [op |-> "start_fl", acct |-> "A2", end_index |-> 0, end_index_wide |-> SflWide(sym)]
     [] sym = "EFL2" -> [op |-> "end_fl", acct |-> "A2"]
     [] sym = "EFL3" -> [op |-> "end_fl", acct |-> "A3"]
     [] sym = "EFL1" -> [op |-> "end_fl", acct |-> "A1"]
@@ -108,6 +113,7 @@ Step(L, i, s) ==
     [] sym \in {"W3", "W4"} -> IF SymAcct(sym) \in s.recv THEN [s EXCEPT !.nW[SymAcct(sym)] = @ + 1] ELSE Fail(s)
     [] sym \in {"R3", "R4"} -> IF SymAcct(sym) \in s.recv THEN [s EXCEPT !.nR[SymAcct(sym)] = @ + 1] ELSE Fail(s)
     [] IsCpiSym(sym) -> Fail(s)
+    [] IsSflW(sym) -> Fail(s)                                      \* no transaction has an instruction at such an index
     [] IsSfl2(sym) -> LET idx == SflIdx(sym) + 1 IN
                       IF idx > i /\ idx <= Len(L) /\ (idx <= Len(L) => L[idx] = "EFL2") /\ ~s.fl2 THEN [s EXCEPT !.fl2 = TRUE] ELSE Fail(s)
     [] IsSfl3(sym) -> LET idx == SflIdx(sym) + 1 IN
